@@ -137,11 +137,13 @@ Fixpoint cloop (s : state) (pre todo : list lrow) (c : cstate) (rep : list lkey)
       if selected (pre ++ todo) l then
         if l_dirty l then
           let '(l1, c1) := process_dirty s c l in
-          (* the UPDATE that clears need_recompute rewrites the row under the cursor (delete + insert
-             in the WITHOUT ROWID b-tree): the cursor yields the same row once more; if the row
-             filter still holds (it is now the clean predecessor of a later dirty day) it goes
-             through the `!need_recompute` branch with itself as the previous row *)
-          if selected (pre ++ l1 :: t) l1 then
+          (* SQLite artefact, observed on the real engine: the UPDATE rewrites the row under the read
+             cursor (delete + insert in the WITHOUT ROWID b-tree); the cursor re-seeks with the
+             primary key AND the next column (entry_number); when entry_number grew, the rewritten
+             row sorts after the saved position and is yielded once more. If the row filter still
+             holds (it is now the clean predecessor of a later dirty day) it goes through the
+             `!need_recompute` branch with itself as the previous row *)
+          if N.ltb (l_n l) (l_n l1) && selected (pre ++ l1 :: t) l1 then
             let '(l2, c2) := process_clean c1 l1 in cloop s (pre ++ [l2]) t c2 (rep ++ [lrow_key l])
           else cloop s (pre ++ [l1]) t c1 (rep ++ [lrow_key l])
         else
